@@ -46,7 +46,7 @@ FLOORS = {
     "P1": 3, "P2": 2, "P3": 5, "P4": 1, "P5": 2, "P6": 9, "P7": 5, "P8": 1, "P9": 1, "P10": 1, "P11": 1, "P12": 1, "P13": 1,
     "E7": 30, "U1": 5, "S2": 12, "S3": 15, "G1": 6, "G2": 5, "G3": 8, "G4": 5, "G5": 1, "S1b": 6, "M1": 1,
     "N1": 25, "N2": 8, "O4": 2, "O5": 4, "O6": 1, "O7": 2, "V1": 10, "V2": 1, "S4": 1, "S5": 2, "S6": 10, "S7": 4, "S8": 1, "S1c": 12,
-    "V3": 3, "G6": 1, "J1": 2, "P14": 1, "F12": 1, "F13": 4, "F14": 5, "M2": 1, "P15": 1, "P16": 1,
+    "V3": 3, "G6": 1, "J1": 2, "P14": 1, "F12": 1, "P15": 1,
 }
 
 PROPERTIES = {}
@@ -135,11 +135,10 @@ prop(
            _t(T.rule_T3c, rows=("canceling",)), _t(T.rule_T3e), _t(T.rule_T3f),
            _t(T.rule_T3g), _t(T.rule_T3h, rows=("canceling",)), _t(T.rule_T4a), _t(T.rule_T4f),
            P.rule_P2, P.rule_P7, P.rule_P10, P.rule_P13, E.rule_F10, G.rule_G1, G.rule_G2,
-           P.rule_P14, SH.rule_P15, SH.rule_F13, SH.rule_F14],
+           P.rule_P14, SH.rule_P15],
     controls=[K.ctl_wf_canceling_to_succeeded, K.ctl_predicate_over_raw_sequence,
               K.ctl_term_only_if_task_completed, K.ctl_override_on_canceled,
-              K.ctl_skip_transitions_when_canceling, K.ctl_render_on_completion,
-              K.ctl_clear_staging_on_request],
+              K.ctl_skip_transitions_when_canceling],
     exhaustive=True,
     explanation=(
         "Decides the table clauses of cancellation: canceling/canceled are not offering statuses "
@@ -249,10 +248,8 @@ prop(
 prop(
     "C06",
     anchor_modules=ENGINE_MODS,
-    rules=[E.rule_O2, E.rule_F2, G.rule_M1, P.rule_P3, P.rule_P6, PU.rule_V1, PU.rule_O7,
-           SH.rule_M2, SH.rule_F13],
-    controls=[K.ctl_drop_ctx_copy, K.ctl_merge_skips_none, K.ctl_filter_published_delta,
-              K.ctl_render_on_completion],
+    rules=[E.rule_O2, E.rule_F2, G.rule_M1, P.rule_P3, P.rule_P6, PU.rule_V1, PU.rule_O7],
+    controls=[K.ctl_drop_ctx_copy, K.ctl_merge_skips_none],
     explanation=(
         "Decides one clause: isolation of the context store. A stored context delta is never "
         "written after it was appended, and no task context is built by mutating a stored delta "
@@ -298,11 +295,11 @@ prop(
     "C01",
     anchor_modules=ENGINE_MODS,
     rules=[P.rule_P1, P.rule_P2, P.rule_P3, P.rule_P4, P.rule_P9, PU.rule_V2, G.rule_G3,
-           P.rule_P14, SH.rule_P15, SH.rule_F14],
+           P.rule_P14, SH.rule_P15],
     controls=[K.ctl_offer_completed_entries, K.ctl_stage_without_criteria,
               K.ctl_keep_started_task_staged, K.ctl_route_without_append,
               K.ctl_falsy_result_dropped, K.ctl_swallow_report,
-              K.ctl_skip_transitions_when_canceling, K.ctl_clear_staging_on_request],
+              K.ctl_skip_transitions_when_canceling],
     explanation=(
         "Decides the necessary structural clauses of 'every execution is justified, exactly "
         "once': every task get_next_tasks returns is built by get_task(id, route) of an entry "
@@ -327,9 +324,8 @@ prop(
     "C07",
     anchor_modules=ENGINE_MODS + ["composers.native", "graphing"],
     rules=[P.rule_P5, P.rule_P7, E.rule_F7, _e7_items, _t(T.rule_T3b),
-           _t(T.rule_T3g, rows=("paused",)), E.rule_O3, SH.rule_F14],
-    controls=[K.ctl_join_always_ready, K.ctl_join_threshold, K.ctl_drop_join_check,
-              K.ctl_clear_staging_on_request],
+           _t(T.rule_T3g, rows=("paused",)), E.rule_O3],
+    controls=[K.ctl_join_always_ready, K.ctl_join_threshold, K.ctl_drop_join_check],
     explanation=(
         "Decides the structural clauses of the join barrier: the ready flag of a staged entry is "
         "recomputed as 'inbound criteria == SATISFIED' after every arrival (new entry or "
@@ -351,8 +347,8 @@ prop(
 prop(
     "C13",
     anchor_modules=ENGINE_MODS,
-    rules=[P.rule_P6, _t(T.rule_T4e), E.rule_O1, SH.rule_P16],
-    controls=[K.ctl_retry_off_by_one, K.ctl_reuse_retry_entry],
+    rules=[P.rule_P6, _t(T.rule_T4e), E.rule_O1],
+    controls=[K.ctl_retry_off_by_one],
     explanation=(
         "Decides the structural clauses of retry: the retry decision (an if whose test calls "
         "_evaluate_task_retry) precedes, in update_task_state, every write of transition "
@@ -362,10 +358,7 @@ prop(
         "count being reads of the record's retry entry); the tally increment and the re-stage "
         "with the retry record are in the same 'new status == retrying' block; the retry delay "
         "reaches the offer; retrying is entered only from a completed status by the retry "
-        "command (T4e); every new record of a task with a retry policy has its retry entry "
-        "evaluated by setup_retry_in_task_state from its own inbound contexts, under no further "
-        "condition, and add_task_state stores no retry entry of its own (P16). NOT decided: the "
-        "bound n+1 per visit across loops and reruns."),
+        "command (T4e). NOT decided: the bound n+1 per visit across loops and reruns."),
     assumptions=[A_ABS, A_AST],
 )
 
@@ -474,10 +467,9 @@ prop(
     anchor_modules=["expressions.base", "expressions.yql", "expressions.jinja",
                     "expressions.functions.common", "conducting", "specs.native.v1.models"],
     rules=[PU.rule_O4, PU.rule_O5, PU.rule_O6, PU.rule_O7, PU.rule_V1, PU.rule_V2, E.rule_O2,
-           E.rule_F2, SH.rule_J1, SH.rule_M2],
+           E.rule_F2, SH.rule_J1],
     controls=[K.ctl_persist_internal_ctx, K.ctl_ctx_unfiltered, K.ctl_yaql_raw_context,
-              K.ctl_merge_skips_none, K.ctl_input_default_on_falsy, K.ctl_render_every_string,
-              K.ctl_filter_published_delta],
+              K.ctl_merge_skips_none, K.ctl_input_default_on_falsy, K.ctl_render_every_string],
     explanation=(
         "Decides the purity and hiding clauses: in every Evaluator.contextualize the caller's "
         "context reaches the template engine only through a converting / copying call (O4); no "
